@@ -2,11 +2,15 @@ SPECIFICATION Spec
 CONSTANTS
   Streams <- MCStreams
   Full = TRUE
-  RBufs = {0, 64, 255, 256, 257, 1024}
+  RBufs = {0, 1, 64, 124, 125, 255, 256, 257, 1024}
   HSizes = {16, 255, 256, 257, 4096}
   ClientRBufs = {0, 1, 125, 200, 255, 256, 1024, 4096}
   RespLen = 129
+  CtlStreams <- MCCtlStreams
+  CtlRBufs = {0, 1, 16, 64, 124, 125, 126, 1024}
+  CtlHSizes = {16, 256, 4096}
+  CtlClientRBufs = {0, 1, 16, 64, 124, 125, 126}
   ScrubProto = TRUE
 CONSTRAINT Emit
-INVARIANTS InvNoLossNoReorder InvNoOverRead
+INVARIANTS InvNoLossNoReorder InvNoOverRead InvControlFits
 CHECK_DEADLOCK FALSE
